@@ -290,10 +290,81 @@ def run_case(case):
                           'tasks_at_stop': state['tasks_before'],
                           'final': run.state_nf,
                           'units': run.unit_log[:40]}
+    _lost_cas_part(case, base, res, brng, bounds)
     res['sample'] = sample
     if case.get('_trace'):
         res['trace'] = ec.trace_lines(run)
     return res
+
+
+def _lost_cas_part(case, base, res, brng, bounds):
+    """The operator's stop races with another engine process that stops the
+    same execution: this stop reads RUNNING, the other process moves the
+    execution to ERROR first (its own forced stop - the one final state
+    another process can reach at any point of a run), this stop's
+    compare-and-swap matches nothing (injected right before it - within one
+    process a transaction is atomic).  The stop that lost must not overwrite
+    the state, message or output of the execution."""
+    from mistral.db.v2.sqlalchemy import api as sa_api
+    for b in bounds[::4][:4]:
+        want = brng.choice(['ERROR', 'CANCELLED', 'CANCELLED'])
+        state = {}
+        st = {'stolen': None}
+
+        def hook(w, st=st):
+            orig = sa_api.update_on_match
+
+            def uom(id, specimen, values, attempts):
+                u = w.coop.current()
+                if st['stolen'] is None and u is not None and \
+                        'stop_workflow' in (u.label or '') and \
+                        u.kind == 'rpc' and \
+                        type(specimen).__name__ == 'WorkflowExecution' and \
+                        values.get('state') in TERMINAL:
+                    st['stolen'] = (u.uid, id, len(w.rec.events))
+                    w.rec.emit('FAULT', fault='cas-lost-to-another-process',
+                               model='WorkflowExecution', id=id,
+                               to='ERROR')
+                    orig(id, specimen, {'state': 'ERROR',
+                                        'state_info': 'other-process-stop'},
+                         attempts)
+                return orig(id, specimen, values, attempts)
+            sa_api.update_on_match = uom
+            w._restore_uom = lambda: setattr(sa_api, 'update_on_match',
+                                             orig)
+        run = ec.execute(case, plan=[{'at': b, 'op': _stop_op(
+            state, want, 'root', brng)}], setup_hook=hook)
+        if hasattr(run.world, '_restore_uom'):
+            run.world._restore_uom()
+        res['executions'] += 1
+        if run.inconclusive:
+            res['inconclusive'] = 'lost cas: %s' % run.inconclusive
+            continue
+        if st['stolen'] is None:
+            continue
+        uid, wid, seq = st['stolen']
+        res['monitor_evaluations']['stop-lost-cas'] = \
+            res['monitor_evaluations'].get('stop-lost-cas', 0) + 1
+        res['keys'].append([gdirect.shape_hash(case['program']),
+                            'stop-lost-cas', b, want])
+        row = run.rows['wf'].get(wid) or {}
+        out = row.j('output') or {} if hasattr(row, 'j') else {}
+        problems = []
+        if row.get('state') != 'ERROR':
+            problems.append('state is %s' % row.get('state'))
+        if row.get('state_info') == state.get('msg'):
+            problems.append('state_info carries the stop message')
+        if isinstance(out, dict) and out.get('result') == state.get('msg'):
+            problems.append('output.result carries the stop message')
+        if problems:
+            res['violations'].append({
+                'prop': 'C11', 'monitor': 'stop-lost-cas',
+                'mech': 'effect-after-lost-compare-and-swap',
+                'boundary': b, 'stop_state': want,
+                'msg': 'stop(%s) lost the compare-and-swap to another '
+                       'process\'s stop (ERROR) and still had an effect: '
+                       '%s' % (
+                           want, '; '.join(sorted(set(problems))))})
 
 
 def _collect(res, run):
